@@ -225,7 +225,7 @@ def src_strings(tier, seed):
             d = dict(c)
             d["id"] = "str%d:%s" % (i, sx)
             d["syntax"] = sx
-            d["positions"] = ["expr", "callarg", "tablekey", "index", "method"] if len(c["body"]) <= 2 and sx == "Lua54" else ["expr"]
+            d["positions"] = ["expr", "callarg", "tablekey", "index", "method", "index_par", "tablekey_par", "callarg_par"] if len(c["body"]) <= 2 and sx == "Lua54" else ["expr"]
             cases.append(d)
     stats["cases"] = len(cases)
     return cases, stats
@@ -238,7 +238,7 @@ def src_literals(tier, seed):
     for i, c in enumerate(raw):
         c["id"] = "lit%d" % i
         if c["kind"] == "longlit":
-            c["positions"] = ["expr", "callarg", "tablekey", "index", "method"] if len(c["body"]) <= 2 else ["expr", "index"]
+            c["positions"] = ["expr", "callarg", "tablekey", "index", "method", "index_par", "tablekey_par", "callarg_par"] if len(c["body"]) <= 2 else ["expr", "index"]
         else:
             c["positions"] = ["expr"]
         cases.append(c)
